@@ -54,9 +54,9 @@ func main() {
 		name string
 		f    func()
 	}{
-		{"probes", h.probes}, {"registration", h.registrationTie}, {"ondisk", h.onDiskFormat}, {"schemaversion", h.svCorrespondence},
+		{"probes", h.probes}, {"registration", h.registrationTie}, {"node-wiring", h.wiringTie}, {"run-with-server", h.runWithServerTie}, {"ondisk", h.onDiskFormat}, {"schemaversion", h.svCorrespondence},
 		{"pipeline", h.pipeAll}, {"runner", h.runnerAll}, {"blocktx", h.blockTxAll}, {"upgrade", h.fullAll},
-		{"headstate", h.headstateFamily}, {"statedifflength", h.sdlFamily}, {"blocktx-writefail", h.blockTxWriteFailures}, {"blocktx-readfault", h.blockTxReadFaults},
+		{"headstate", h.headstateFamily}, {"statedifflength", h.sdlFamily}, {"blocktx-writefail", h.blockTxWriteFailures}, {"blocktx-final-step", h.blockTxFinalStep}, {"blocktx-cancel-at-reads", h.blockTxCancelAtReads}, {"blocktx-readfault", h.blockTxReadFaults},
 	}
 	var timing []string
 	for _, ph := range phases {
